@@ -63,6 +63,14 @@ def build_chain(seq, phis, psis, chis=None, omegas=None, hydrogens="none", oxt=T
     n = len(seq)
     omegas = omegas or [180.0] * n
     bb = backbone(n, phis, psis, omegas)
+    # certification: a linear chain must not look head-to-tail cyclic (pdb2pqr treats a
+    # first-N / last-C distance below 1.35 A as a peptide bond); re-draw a middle psi
+    tries = 0
+    while n >= 3 and measure(bb[0][0], bb[-1][2]) < 2.5 and tries < 6:
+        psis = list(psis)
+        psis[n // 2] = psis[n // 2] + 75.0
+        bb = backbone(n, phis, psis, omegas)
+        tries += 1
     out = []
     for i, rn in enumerate(seq):
         base = BASE.get(rn, rn)
